@@ -108,6 +108,10 @@ def run_real(line: str, budget: float = 20.0) -> list[str]:
     try:
         return sim.run_scenario(line)
     except _Timeout:
+        if budget < 100:
+            signal.setitimer(signal.ITIMER_REAL, 0)
+            signal.signal(signal.SIGALRM, old)
+            return run_real(line, budget=6 * budget)      # once more with a much larger budget
         return ["HARNESS-TIMEOUT"]
     except Exception as e:  # noqa
         return [f"HARNESS-ERROR {type(e).__name__}: {e}"]
